@@ -205,6 +205,17 @@ def run(ctx):
             ctx.check(val in want_vals, "clock-stored-as-read:%s" % kind_,
                       "the %s stage leaves %s in the board, which is not the number its text parses to" % (kind_, sym.show(val)[:140] if val else "nothing"), loc(sb_),
                       sample={"stage": st_.rsplit("::", 1)[-1], "stored": "str::parse(text)"} if nclk == 1 else None)
+    # the en-passant field is a square, of which the reader keeps the file only: the square's rank has to be the one the
+    # side to move implies, or the record is answered with a board for a different text (rule shared with C07)
+    ctx.rule("ep-square-stored-as-read")
+    from . import c07 as c07_
+    try:
+        g.stage_for(FROM_FEN, "ep")
+        has_ep_stage = True
+    except Exception:
+        has_ep_stage = False
+    if has_ep_stage:
+        c07_.check_reader_ep_guard(ctx, f, g, L)
     ctx.rule("non-empty-fields")
     for st in stages:
         sb = f.need(st)
